@@ -13,11 +13,14 @@ import (
 	"strings"
 	"sync"
 
+	"k8s.io/apimachinery/pkg/api/meta"
 	"k8s.io/apimachinery/pkg/runtime"
 	"k8s.io/apimachinery/pkg/runtime/schema"
 	"k8s.io/cli-runtime/pkg/resource"
+	"k8s.io/client-go/discovery"
 	"k8s.io/client-go/rest"
 	"k8s.io/client-go/rest/fake"
+	"k8s.io/client-go/restmapper"
 	cmdtesting "k8s.io/kubectl/pkg/cmd/testing"
 
 	"helm.sh/helm/v4/pkg/action"
@@ -55,14 +58,43 @@ func (c *Client) GetWaiter(s kube.WaitStrategy) (kube.Waiter, error) {
 
 var factoryMu sync.Mutex
 
+// simFactory is kubectl's TestFactory with a REST mapper that also knows CustomResourceDefinition (cluster scoped)
+// and one custom kind (Widget.example.com, namespaced), so charts with a crds/ directory can be exercised.
+type simFactory struct {
+	*cmdtesting.TestFactory
+	clientFor func(gv schema.GroupVersion) (resource.RESTClient, error)
+}
+
+func (f *simFactory) ToRESTMapper() (meta.RESTMapper, error) {
+	base, err := f.TestFactory.ToRESTMapper()
+	if err != nil {
+		return nil, err
+	}
+	extra := meta.NewDefaultRESTMapper(nil)
+	extra.Add(schema.GroupVersionKind{Group: "apiextensions.k8s.io", Version: "v1", Kind: "CustomResourceDefinition"}, meta.RESTScopeRoot)
+	extra.Add(schema.GroupVersionKind{Group: "example.com", Version: "v1", Kind: "Widget"}, meta.RESTScopeNamespace)
+	return meta.FirstHitRESTMapper{MultiRESTMapper: meta.MultiRESTMapper{base, extra}}, nil
+}
+
+// ToDiscoveryClient returns a usable (fake) cached discovery client; install invalidates it after creating CRDs.
+func (f *simFactory) ToDiscoveryClient() (discovery.CachedDiscoveryInterface, error) {
+	return cmdtesting.NewFakeCachedDiscoveryClient(), nil
+}
+
+func (f *simFactory) NewBuilder() *resource.Builder {
+	return resource.NewFakeBuilder(f.clientFor, f.ToRESTMapper, func() (restmapper.CategoryExpander, error) {
+		return resource.FakeCategoryExpander, nil
+	})
+}
+
 // NewKubeClient wires the real kube.Client to a RoundTripper.
-func NewKubeClient(rt http.RoundTripper, w kube.Waiter) (*Client, func()) {
+func NewKubeClient(rt http.RoundTripper, w kube.Waiter) (*Client, *simFactory, func()) {
 	hc := &http.Client{Transport: rt}
 	factoryMu.Lock() // NewTestFactory touches process-wide temp files / env; keep construction serial
 	tf := cmdtesting.NewTestFactory().WithNamespace("default")
 	factoryMu.Unlock()
 	tf.Client = &fake.RESTClient{NegotiatedSerializer: unstructuredSerializer, Client: hc}
-	tf.UnstructuredClientForMappingFunc = func(gv schema.GroupVersion) (resource.RESTClient, error) {
+	clientFor := func(gv schema.GroupVersion) (resource.RESTClient, error) {
 		cc := rest.ClientContentConfig{ContentType: runtime.ContentTypeJSON, GroupVersion: gv, Negotiator: runtime.NewClientNegotiator(unstructuredSerializer, gv)}
 		apiPath := "/apis/" + gv.String()
 		if gv.Group == "" {
@@ -71,8 +103,10 @@ func NewKubeClient(rt http.RoundTripper, w kube.Waiter) (*Client, func()) {
 		base := *baseURL
 		return rest.NewRESTClient(&base, apiPath, cc, nil, hc)
 	}
-	kc := &Client{Client: &kube.Client{Factory: tf, Namespace: "default"}, W: w}
-	return kc, func() { factoryMu.Lock(); tf.Cleanup(); factoryMu.Unlock() }
+	tf.UnstructuredClientForMappingFunc = clientFor
+	sf := &simFactory{TestFactory: tf, clientFor: clientFor}
+	kc := &Client{Client: &kube.Client{Factory: sf, Namespace: "default"}, W: w}
+	return kc, sf, func() { factoryMu.Lock(); tf.Cleanup(); factoryMu.Unlock() }
 }
 
 // World is one cluster + one release store.
@@ -162,6 +196,8 @@ type Op struct {
 	Description    string                 `json:"description,omitempty"`
 	Labels         map[string]string      `json:"labels,omitempty"`
 	PostRender     bool                   `json:"postRender,omitempty"`
+	HideSecret     bool                   `json:"hideSecret,omitempty"`
+	IsUpgrade      bool                   `json:"isUpgrade,omitempty"`
 	Chart          ChartSpec              `json:"chart"`
 	Values         map[string]interface{} `json:"values,omitempty"`
 	Fault          Fault                  `json:"fault,omitempty"`
@@ -273,11 +309,12 @@ func (postRenderer) Run(in *bytes.Buffer) (*bytes.Buffer, error) {
 // NewConfig builds a fresh action.Configuration for one operation (as each CLI invocation would).
 func (w *World) NewConfig(ctx *OpCtx) (*action.Configuration, func()) {
 	tr := &Transport{C: w.Cluster, Ctx: ctx}
-	kc, cleanup := NewKubeClient(tr, &Waiter{Ctx: ctx, Log: w.Log})
+	kc, sf, cleanup := NewKubeClient(tr, &Waiter{Ctx: ctx, Log: w.Log})
 	cfg := &action.Configuration{
-		Releases:     storage.Init(&Store{Driver: w.RawDriver(), Ctx: ctx, Log: w.Log}),
-		KubeClient:   kc,
-		Capabilities: chartutil.DefaultCapabilities.Copy(),
+		RESTClientGetter: sf,
+		Releases:         storage.Init(&Store{Driver: w.RawDriver(), Ctx: ctx, Log: w.Log}),
+		KubeClient:       kc,
+		Capabilities:     chartutil.DefaultCapabilities.Copy(),
 	}
 	return cfg, cleanup
 }
@@ -309,6 +346,7 @@ func (w *World) Run(op *Op) *Result {
 			a.DryRun, a.DryRunOption, a.ClientOnly, a.CreateNamespace = op.DryRun, op.DryRunOption, op.ClientOnly, op.CreateNS
 			a.WaitForJobs, a.SkipCRDs, a.IncludeCRDs, a.SkipSchemaValidation, a.SubNotes = op.WaitForJobs, op.SkipCRDs, op.IncludeCRDs, op.SkipSchema, op.SubNotes
 			a.Description, a.Labels = op.Description, op.Labels
+			a.HideSecret, a.IsUpgrade = op.HideSecret, op.IsUpgrade
 			a.WaitStrategy = kube.StatusWatcherStrategy
 			if op.PostRender {
 				a.PostRenderer = postRenderer{}
@@ -325,6 +363,7 @@ func (w *World) Run(op *Op) *Result {
 			a.WaitForJobs, a.SkipCRDs, a.SkipSchemaValidation, a.SubNotes = op.WaitForJobs, op.SkipCRDs, op.SkipSchema, op.SubNotes
 			a.ResetValues, a.ReuseValues, a.ResetThenReuseValues = op.ResetValues, op.ReuseValues, op.ResetThenReuse
 			a.Description, a.Labels = op.Description, op.Labels
+			a.HideSecret = op.HideSecret
 			a.WaitStrategy = kube.StatusWatcherStrategy
 			if op.PostRender {
 				a.PostRenderer = postRenderer{}
